@@ -46,6 +46,9 @@ def _worker(job):
 def _interp_kwargs(mod, opts):
     kw = dict(opts.get("interp", {}))
     mk = getattr(mod, "make_stubs", None)
+    if opts.get("stubs_from"):
+        # an obligation that borrows another property's body also borrows its stub set
+        mk = getattr(importlib.import_module(opts["stubs_from"]), "make_stubs", None)
     if mk is not None and "stubs" not in kw:
         kw["stubs"] = mk()
     return kw
